@@ -586,3 +586,102 @@ class MustPassSummary:
 
     def sites(self, body):
         return [cs for cs in body.calls() if self.is_p_call(cs)]
+
+
+# ------------------------------------------------------------------------------------------------
+# COVER / FRAMING
+# ------------------------------------------------------------------------------------------------
+
+def fields_read(prog, body, adt, depth=2, _seen=None):
+    """names of `adt` fields read (appearing in an rvalue / call argument place) in `body`, and in
+    in-crate callees that are handed the same object (first argument of the same type), depth-bounded.
+    returns {field: [(body, line)]}"""
+    out = {}
+    _seen = _seen if _seen is not None else set()
+    if body.id in _seen:
+        return out
+    _seen.add(body.id)
+    tag = '.%s::' % adt
+
+    def scan_place(pl, ln):
+        for p in pl[1:]:
+            if isinstance(p, str) and p.startswith(tag):
+                out.setdefault(p[len(tag):], []).append((body, ln))
+
+    for bi, si, s in body.stmts():
+        r = s['r']
+        for o in F._rvalue_operands(r):
+            if 'p' in o:
+                scan_place(o['p'], s.get('ln'))
+    for bi, t in body.terms():
+        if t['k'] == 'call':
+            for a in t['args']:
+                if 'p' in a:
+                    scan_place(a['p'], t.get('ln'))
+        elif t['k'] == 'switch' and 'p' in t['d']:
+            scan_place(t['d']['p'], t.get('ln'))
+    if depth > 0:
+        for cs in body.calls():
+            if not cs.local or cs.callee not in prog.bodies:
+                continue
+            cb = prog.bodies[cs.callee]
+            if cb.argc >= 1 and adt in cb.local_ty(1):
+                for k, v in fields_read(prog, cb, adt, depth - 1, _seen).items():
+                    out.setdefault(k, []).extend(v)
+        for cid in prog.children(body.id):
+            for k, v in fields_read(prog, prog.bodies[cid], adt, depth - 1, _seen).items():
+                out.setdefault(k, []).extend(v)
+    return out
+
+
+def classify_bytes_operand(body, op):
+    """'len' | 'fixed' | 'var' for an operand appended to a MAC / hash / signable byte string"""
+    e = body.expr(op)
+    s = e.show()
+    if re.search(r'::len\(', s):
+        return 'len'
+    if re.search(r'to_(le|be|ne)_bytes', s):
+        return 'fixed'
+    if any(x.k == 'cast' and str(x.a).startswith('PointerCoercion(Unsize') for x in e.walk()):
+        return 'fixed'      # &[u8; N] -> &[u8]
+    t = operand_ty(body, op)
+    if t and re.match(r'^&(mut )?\[u8; \d+\]$', t):
+        return 'fixed'
+    if t in ('u8', 'u16', 'u32', 'u64', 'bool'):
+        return 'fixed'
+    return 'var'
+
+
+def framing(body, calls, argidx=1):
+    """order the append calls, classify operands; returns (seq, adjacent_var_pairs, unmarked_optional)"""
+    order = rpo(body)
+    calls = sorted(calls, key=lambda c: order.get(c.bb, 10**6))
+    seq = []
+    for u in calls:
+        kind = classify_bytes_operand(body, u.args[argidx])
+        conds = [c for c in F.dominating_conds(body, u.bb)
+                 if c.kind == 'disc' and not re.search(r'Try>::branch|Try::branch', c.expr.show())]
+        seq.append((u, kind, bool(conds)))
+    bad = []
+    for i in range(len(seq) - 1):
+        if seq[i][1] == 'var' and seq[i + 1][1] == 'var':
+            bad.append((seq[i][0], seq[i + 1][0]))
+    presence = []
+    for i, (u, k, opt) in enumerate(seq):
+        if opt and k == 'var':
+            prev = seq[i - 1] if i > 0 else None
+            if not (prev is not None and prev[1] == 'len'):
+                presence.append(u)
+    return seq, bad, presence
+
+
+def rejecting_conds(body):
+    """conditions of switch edges from which no success return is reachable (i.e. guards that
+    reject): list of Cond"""
+    succ = set(bb for bb, _ in success_returns(body))
+    out = []
+    for n, e in body.edge_nodes().items():
+        reach = body.reachable_from([n])
+        if not (reach & succ):
+            out.append(F.edge_cond(body, e))
+    return out
